@@ -98,7 +98,7 @@ def _params(maxtotal, maxeach, callables=CALLABLES):
                     continue
                 # one argument list per cell, rotating, keeps the product tractable
                 out.append(dict(pre=pre, post=post, callable=c, flat=flat, args=ARGS[(len(out)) % 3],
-                                kw=(len(out) // 3) % 2 == 1))
+                                kw=(len(out) // 3) % 2 == 1, derive=(len(out) % 2 == 1)))
     return out
 
 
@@ -128,6 +128,12 @@ def body(mc, p):
         return ex, fn
     kw = dict(k=3) if p["kw"] else {}
     bound, _ = build("bound")
+    if p.get("derive"):
+        # deriving further callables from a bound callable must leave the original untouched
+        d1 = bound.with_map(lambda v: ("derived", v))
+        d2 = bound.with_retry(max_attempts=3, sleep=1.0, name="other")
+        d3 = d1.with_map(lambda v: ("derived2", v))
+        derived = [d1, d2, d3]
     ex, fn = build("plain")
     fb = bound(*p["args"], **kw)
     fp = ex.submit(fn, *p["args"], **kw)
@@ -174,7 +180,9 @@ def _nparams():
                     for base in ("sync", "tp"):
                         if n == 3 and (base == "tp" or bind_at not in (None, 1)):
                             continue
-                        out.append(dict(layers=layers, explicit=explicit, bind_at=bind_at, base=base))
+                        out.append(dict(layers=layers, explicit=explicit, bind_at=bind_at, base=base, flat=False))
+                        if bind_at is not None and base == "sync":
+                            out.append(dict(layers=layers, explicit=explicit, bind_at=bind_at, base=base, flat=True))
     return out
 
 
@@ -188,7 +196,7 @@ def nbody(mc, p):
     inherited = "nb"
     for i, l in enumerate(layers):
         if p["bind_at"] == i:
-            cur = cur.bind(lambda: "v")
+            cur = cur.flat_bind(lambda: f_return("v")) if p["flat"] else cur.bind(lambda: "v")
         name = None
         if p["explicit"] == i:
             name = "nx"
@@ -201,7 +209,7 @@ def nbody(mc, p):
         else:
             execs.append(cur)
     if p["bind_at"] == len(layers):
-        cur = cur.bind(lambda: "v")
+        cur = cur.flat_bind(lambda: f_return("v")) if p["flat"] else cur.bind(lambda: "v")
     names = [t.name for t in mc.s.threads[n0:] if t.name.split("-")[0] in THREADED.values()]
     mc.observe(names=tuple(names), expected=tuple(expected))
     # shut down what can be shut down (bound callables hide their executor: reach it for clean-up)
